@@ -715,6 +715,25 @@ class Run:
                                                                 **({'v': (oid if ch.get('v') is None else None)} if ch['k'] == 'set_ref' else {})), dict(test)]
                                                           if rng.random() < 0.4 else [])
                     return dict(test, rs=rs)
+        # an existing object is modified, a new object is created, a reference is pointed at the new object (from either side), commit:
+        # the new object has to be written before the row that refers to it, also when that row belongs to a `modified` object
+        if 0.07 <= r < 0.13 and live:
+            cands = [(oid, key) for oid in live for key in w.ent_rel[sh.objs[oid]['ent']]
+                     if sh.objs[oid]['pk'] is not None and oid in self.committed.objs and self.committed.objs[oid]['alive']]
+            if cands:
+                oid, key = rng.choice(cands); side = w.sides[key]; rkey = w.rev(key); e = sh.objs[oid]['ent']
+                cr = self.gen_create(rs, e=w.sides[rkey]['ent'])
+                cr['refs'] = {n: v for n, v in cr['refs'].items() if w.sides[[k for k in w.ent_rel[cr['e']] if w.sides[k]['name'] == n][0]]['req']}
+                cr['colls'] = {}; cr['noreads'] = True
+                new = cr['oid']
+                if side['coll']: link = {'k': 'coll_add', 'o': oid, 'key': list(key), 'items': [new], 'via': rng.choice(['list', 'single', 'op']), 'noreads': True}
+                elif rng.random() < 0.6 or w.sides[rkey]['coll']: link = {'k': 'set_ref', 'o': oid, 'key': list(key), 'v': new, 'noreads': True}
+                else: link = {'k': 'set_ref', 'o': new, 'key': list(rkey), 'v': oid, 'noreads': True}
+                sc = rng.choice(w.schema['ents'][e]['scalars'])
+                first = {'k': 'set_scalar', 'o': oid, 'a': sc['name'], 'v': rng.choice([0, 1, 2, 3]), 'noreads': True, 'rs': rs}
+                self.queued_ops = [cr, link] + ([{'k': rng.choice(['commit', 'end_ok', 'flush']), 'noreads': True}] if rng.random() < 0.7 else [])
+                self.count('gen:modified-object-refers-to-new-object')
+                return first
         # follow-up: another call on the collection touched last, re-using the items of that call (interplay of pending additions / removals)
         lc = getattr(self, 'last_coll_gen', None)
         if lc is not None and rng.random() < 0.3 and lc[0] in live:
@@ -766,9 +785,10 @@ class Run:
         if r < 0.98: return {'k': 'end_ok', 'rs': rs}
         return {'k': 'end_err', 'rs': rs}
 
-    def gen_create(self, rs):
+    def gen_create(self, rs, e=None):
         rng = self.rng; w = self.w; sh = self.sh
-        e = rng.randrange(len(w.classes)); ed = w.schema['ents'][e]
+        if e is None: e = rng.randrange(len(w.classes))
+        ed = w.schema['ents'][e]
         if ed['pk'] == 'explicit':
             same = [o['pk'] for o in sh.objs.values() if o['ent'] == e and o['pk'] is not None]
             if same and rng.random() < 0.06: pk = rng.choice(same)          # a primary key that is, or was, in use
@@ -860,6 +880,7 @@ class Run:
         import random as _r
         self.rrng = _r.Random(op.get('rs', 0))
         if not self.in_session: self.enter()
+        self.cur_noreads = bool(op.get('noreads'))
         if k in ('flush', 'commit', 'rollback', 'end_ok', 'end_err'):
             self.ops.append(op); self.count('op:' + k)
             return self.boundary(k)
@@ -906,7 +927,7 @@ class Run:
                 mops = self.expand(before, self.sh, forced, fl)
                 for i, m in enumerate(mops):
                     self.model_ops.append(m); self.model_checks.append(None); self.count('model-op:' + m['k'])
-                if mops: self.model_checks[-1] = self.snapshot()
+                if mops and not dup: self.model_checks[-1] = self.snapshot()      # (an ill-formed duplicate-key create is judged by the flush that follows)
                 self.prev_index = self.real_indexed()
             if dup:
                 # ill-formed program: a second object under a primary key the program still holds (the first one is not in
@@ -998,7 +1019,7 @@ class Run:
             self.model_checks.append(snap)
             self.prev_index = self.real_indexed()
         if not self.in_session: self.enter()
-        if self.do_reads and not self.stop and self.rrng.random() < 0.4: self.reads()
+        if self.do_reads and not self.stop and not getattr(self, 'cur_noreads', False) and self.rrng.random() < 0.4: self.reads()
 
     epoch = 0
     def after_abort(self, why):
